@@ -50,7 +50,7 @@ func (g *Gen) forceStored(b Batch) {
 var twinSwap = map[string]string{"a": "b", "b": "a", "ab": "ba", "ba": "ab", "cat": "dog", "dog": "cat"}
 
 // TwinCase: two segments with the same shape (same documents, fields, term
-// lengths, offsets) and different content.  In flavour 0 terms of equal length
+// lengths, offsets) and different content (flavour 2: stored values of equal length).  In flavour 0 terms of equal length
 // change places in every field but _id (same dictionary keys, the doc-value
 // sections start at the same offsets and hold different terms); flavour 1 differs in the term frequencies (postings blocks
 // at the same offsets with different content).  Lists, iterators and the
@@ -60,14 +60,23 @@ func (g *Gen) TwinCase() *Case {
 	c := &Case{Family: "twin"}
 	r := g.R
 	g.twins++
-	flavour := g.twins % 2
+	flavour := g.twins % 3
 	n := 8 + r.Intn(30)
 	a := g.Batch(BatchOpts{NDocs: n, NFields: 2, NVocab: 9, ForceDV: true, AllFields: true, IDPrefix: "t"})
+	if flavour == 2 {
+		g.forceStored(a)
+	}
 	b := cloneBatch(a)
 	for d := range b {
 		for f := range b[d] {
 			fl := &b[d][f]
 			if fl.N == "_id" {
+				continue
+			}
+			if flavour == 2 { // the stored values differ (same lengths: the compressed block keeps its size and offsets)
+				for i := range fl.Val {
+					fl.Val[i] ^= 0x55
+				}
 				continue
 			}
 			for t := range fl.Terms {
@@ -76,7 +85,7 @@ func (g *Gen) TwinCase() *Case {
 					if sw, ok := twinSwap[string(tm.T)]; ok {
 						tm.T = []byte(sw)
 					}
-				} else if tm.Freq < 100 {
+				} else if flavour == 1 && tm.Freq < 100 {
 					tm.Freq++
 					fl.Len++
 				}
@@ -104,8 +113,15 @@ func (g *Gen) TwinCase() *Case {
 		visits = append(visits, uint64(r.Intn(n)))
 	}
 	ops = append(ops, Op{Code: OpDV, Slot: 0, RdSlot: 1, Fields: fs, Visits: visits}, Op{Code: OpDV, Slot: 1, RdSlot: 2, Fields: fs, Visits: visits})
-	ops = append(ops, Op{Code: OpMerge, CM: g.ChunkMode(), Ins: []MergeIn{{Slot: 0, DropsNil: true}, {Slot: 1, DropsNil: r.Intn(2) == 0, Drops: []uint64{}}}},
+	// stored fields of the same documents, first in one twin, then in the other (one pooled visiting context)
+	for _, d := range visits {
+		ops = append(ops, Op{Code: OpStored, Slot: 0, N: d}, Op{Code: OpStored, Slot: 1, N: d})
+	}
+	// a merge with one deletion in each twin re-encodes the stored fields of both through one context
+	ops = append(ops, Op{Code: OpMerge, CM: g.ChunkMode(), Ins: []MergeIn{{Slot: 0, Drops: []uint64{uint64(r.Intn(n))}}, {Slot: 1, Drops: []uint64{uint64(r.Intn(n))}}}},
 		Op{Code: OpObsAll, Slot: 2})
+	ops = append(ops, Op{Code: OpMerge, CM: g.ChunkMode(), Ins: []MergeIn{{Slot: 0, DropsNil: true}, {Slot: 1, DropsNil: r.Intn(2) == 0, Drops: []uint64{}}}},
+		Op{Code: OpObsAll, Slot: 3})
 	c.Ops = ops
 	c.tag("merge")
 	c.tag("twin_segments")
@@ -200,6 +216,11 @@ func (g *Gen) ZeroDocFieldsMerge() *Case {
 	}
 	nb := 3 + r.Intn(6)
 	skip := fieldNames[r.Intn(2)]
+	g.zerodocs++
+	if g.zerodocs%2 == 0 {
+		skip = "" // the same field list everywhere: the byte-copy path with a zero-document input in the middle
+		c.tag("copy_path")
+	}
 	b := g.Batch(BatchOpts{NDocs: nb, NFields: 3, NVocab: 5, AllFields: true, IDPrefix: "q", SkipField: func(int) string { return skip }})
 	g.forceStored(b)
 	ops := []Op{
@@ -378,5 +399,170 @@ func (g *Gen) BigAssoc() *Case {
 	c.tag("reencode_path")
 	c.tag("drops")
 	c.tag("three_inputs_drop_nonlast")
+	return c
+}
+
+// SubsetFieldsMerge: the first input has every field, a later input (no
+// deletions) a strict subset of them: the union of the field lists is as long
+// as the first input's list although the lists differ (C02, C03, C06, C17).
+func (g *Gen) SubsetFieldsMerge() *Case {
+	c := &Case{Family: "subset_fields_merge"}
+	r := g.R
+	na, nb := 3+r.Intn(8), 3+r.Intn(8)
+	a := g.Batch(BatchOpts{NDocs: na, NFields: 3, NVocab: 5, AllFields: true, IDPrefix: "p"})
+	skip := fieldNames[r.Intn(3)]
+	b := g.Batch(BatchOpts{NDocs: nb, NFields: 3, NVocab: 5, AllFields: true, IDPrefix: "q", SkipField: func(int) string { return skip }})
+	g.forceStored(a)
+	g.forceStored(b)
+	ops := []Op{
+		{Code: OpBuild, CM: g.ChunkMode(), Batch: a},                                                                                           // 0: all fields
+		{Code: OpBuild, CM: g.ChunkMode(), Batch: b},                                                                                           // 1: one field less
+		{Code: OpMerge, CM: g.ChunkMode(), Ins: []MergeIn{{Slot: 0, DropsNil: true}, {Slot: 1, DropsNil: true}}},                               // 2
+		{Code: OpMerge, CM: g.ChunkMode(), Ins: []MergeIn{{Slot: 0, Drops: []uint64{}}, {Slot: 1, DropsNil: true}, {Slot: 0, DropsNil: true}}}, // 3
+		{Code: OpMerge, CM: g.ChunkMode(), Ins: []MergeIn{{Slot: 2, DropsNil: true}, {Slot: 1, DropsNil: true}}},                               // 4: a merged first input
+		{Code: OpMerge, CM: g.ChunkMode(), Ins: []MergeIn{{Slot: 1, DropsNil: true}, {Slot: 0, DropsNil: true}}},                               // 5: the subset first
+	}
+	for _, s := range []int{2, 3, 4, 5} {
+		ops = append(ops, Op{Code: OpObsAll, Slot: s})
+	}
+	for d := 0; d < na+nb; d++ {
+		ops = append(ops, Op{Code: OpStored, Slot: 2, N: uint64(d)})
+	}
+	c.Ops = ops
+	c.tag("merge")
+	c.tag("merge_of_merge")
+	c.tag("subset_field_lists")
+	return c
+}
+
+// OneHitBoundary: a term with 1,023 (or 1,024, 2,047) postings in a built input
+// and one more posting, 1-hit encoded, in a previously merged input, whose
+// document is deleted in this merge (or not): the chunk size the merger derives
+// must count the survivors only (C02, C05, C17).
+func (g *Gen) OneHitBoundary() *Case {
+	c := &Case{Family: "one_hit_boundary"}
+	r := g.R
+	g.onehits++
+	card := []int{1023, 1024, 2047}[g.onehits%3]
+	n := card + r.Intn(40)
+	var a Batch
+	for d := 0; d < n; d++ {
+		body := Field{N: "body"}
+		if d < card {
+			body.Terms = append(body.Terms, Term{T: []byte("x"), Freq: 1})
+			body.Len++
+		}
+		if r.Intn(3) == 0 {
+			body.Terms = append(body.Terms, Term{T: []byte("y"), Freq: 2, Locs: []Loc{{Pos: 1, Start: 0, End_: 1}}})
+			body.Len += 2
+		}
+		a = append(a, Doc{idField(fmt.Sprintf("a%d", d), false), body})
+	}
+	// the small input: "x" in exactly one document without locations (1-hit once merged)
+	small := Batch{
+		{idField("s0", true), Field{N: "body", Len: 1, Terms: []Term{{T: []byte("x"), Freq: 1}}}},
+		{idField("s1", true), Field{N: "body", Len: 1, Terms: []Term{{T: []byte("z"), Freq: 1}}}},
+	}
+	drop := []uint64{0}
+	if g.onehits%2 == 0 {
+		drop = []uint64{1}
+	}
+	c.Ops = []Op{
+		{Code: OpBuild, CM: 1025, Batch: a},                                                          // 0
+		{Code: OpBuild, CM: 1025, Batch: small},                                                      // 1
+		{Code: OpMerge, CM: 1025, Ins: []MergeIn{{Slot: 1, DropsNil: true}}},                         // 2: merged, "x" is 1-hit
+		{Code: OpMerge, CM: 1025, Ins: []MergeIn{{Slot: 0, DropsNil: true}, {Slot: 2, Drops: drop}}}, // 3
+		{Code: OpObsAll, Slot: 3}, {Code: OpLayout, Slot: 3},
+		{Code: OpIter, Slot: 3, F: "body", T: []byte("x"), ExceptNil: true, Except: []uint64{}, Flags: [3]bool{true, true, true},
+			IterOps: []IterOp{{}, {Adv: true, D: 511}, {}, {Adv: true, D: 1000}, {}, {}, {Adv: true, D: uint64(n)}, {}}},
+		{Code: OpMerge, CM: 1025, Ins: []MergeIn{{Slot: 2, Drops: drop}, {Slot: 0, DropsNil: true}}}, // 4: the other order
+		{Code: OpObsAll, Slot: 4},
+	}
+	c.tag("merge")
+	c.tag("merge_of_merge")
+	c.tag("multi_chunk")
+	c.tag("chunk_boundary")
+	c.tag("drops_and_survivors")
+	c.tag("one_hit_input")
+	return c
+}
+
+// EmptyFirstDVChunk: doc-value fields whose first 1,024-document chunk is
+// empty (values only from document 1,100 on), a doc-value field without any
+// term at all, and a merge that deletes every document with a value (C07, C10).
+func (g *Gen) EmptyFirstDVChunk(layout bool) *Case {
+	c := &Case{Family: "empty_first_dv_chunk"}
+	r := g.R
+	n := 1200 + r.Intn(200)
+	var b Batch
+	var withValue []uint64
+	for d := 0; d < n; d++ {
+		doc := Doc{idField(fmt.Sprintf("e%d", d), false)}
+		if d >= 1100 && r.Intn(2) == 0 {
+			doc = append(doc, Field{N: "late", DV: true, Len: 1, Terms: []Term{{T: []byte(fmt.Sprintf("v%d", d%5)), Freq: 1}}})
+			withValue = append(withValue, uint64(d))
+		}
+		if d%7 == 0 { // indexed for doc values, but never a term
+			doc = append(doc, Field{N: "none", DV: true, St: true, Val: []byte{byte(d)}})
+		}
+		b = append(b, doc)
+	}
+	fs := []string{"_id", "late", "none"}
+	visits := []uint64{0, 1100, uint64(n - 1), 5, 1023, 1024, withValue[0], 7}
+	ops := []Op{{Code: OpBuild, CM: 1025, Batch: b},
+		{Code: OpDV, Slot: 0, RdSlot: 1, Fields: fs, Visits: visits},
+		{Code: OpMerge, CM: 1025, Ins: []MergeIn{{Slot: 0, Drops: withValue}}}, // every document with a value in "late" goes
+		{Code: OpDV, Slot: 1, RdSlot: 2, Fields: fs, Visits: []uint64{0, 1, 1050, uint64(n - len(withValue) - 1)}},
+		{Code: OpMerge, CM: 1025, Ins: []MergeIn{{Slot: 0, Drops: g.subset(n, 9)}}},
+	}
+	for s := 0; s <= 2; s++ {
+		if layout {
+			ops = append(ops, Op{Code: OpLayout, Slot: s})
+		} else {
+			ops = append(ops, Op{Code: OpObsAll, Slot: s})
+		}
+	}
+	ops = append(ops, Op{Code: OpReload, Slot: 0, Kind: 1}, Op{Code: OpDV, Slot: 3, RdSlot: 3, Fields: fs, Visits: visits})
+	c.Ops = ops
+	c.tag("merge")
+	c.tag("multi_dvchunk")
+	c.tag("dv_hole")
+	c.tag("empty_first_dv_chunk")
+	c.tag("sparse_dv_fields")
+	return c
+}
+
+// TinyShapes: the smallest files ice can write (one document with only `_id`,
+// with and without doc values or a stored value, the empty term as the only
+// term, ...), persisted and read back from memory and from a file: every
+// fixed look-ahead of the loaders runs closest to the end of the data there (C04, C10).
+func (g *Gen) TinyShapes() *Case {
+	c := &Case{Family: "tiny_shapes"}
+	g.tinies++
+	id := func(s string, st, dv bool) Field {
+		f := idField(s, st)
+		f.DV = dv
+		return f
+	}
+	shapes := []Batch{
+		{{id("a", false, true)}},
+		{{id("a", true, true)}},
+		{{id("a", false, false)}},
+		{{id("a", true, true)}, {id("b", true, true)}, {id("c", false, true)}},
+		{{id("a", false, true), Field{N: "t", Len: 1, DV: true, Terms: []Term{{T: []byte(""), Freq: 1}}}}},
+		{{Field{N: "t", Len: 1, Terms: []Term{{T: []byte("x"), Freq: 1}}}}}, // no _id at all
+		{{id("a", false, true), Field{N: "s", St: true, Val: []byte{}}}},
+	}
+	b := shapes[(g.tinies-1)%len(shapes)]
+	cm := g.ChunkMode()
+	ops := []Op{{Code: OpBuild, CM: cm, Batch: b}, {Code: OpObsAll, Slot: 0},
+		{Code: OpReload, Slot: 0, Kind: 1}, {Code: OpObsAll, Slot: 1}, // file-backed
+		{Code: OpReload, Slot: 0, Kind: 0}, {Code: OpObsAll, Slot: 2},
+		{Code: OpMerge, CM: g.ChunkMode(), Ins: []MergeIn{{Slot: 1, DropsNil: true}}}, // a file-backed input
+		{Code: OpReload, Slot: 3, Kind: 1}, {Code: OpObsAll, Slot: 4},
+		{Code: OpFooter, Slot: 0}, {Code: OpContainer, Slot: 0}, {Code: OpFooter, Slot: 3}, {Code: OpContainer, Slot: 3}}
+	c.Ops = ops
+	c.tag("merge")
+	c.tag("tiny_file")
 	return c
 }
